@@ -233,26 +233,98 @@ def model_correspondence(ctx, B, model, tinfo, dist, quick):
         return name, ins, okc, nat["out"].splitlines()
     with cf.ThreadPoolExecutor(16) as ex:
         res = list(ex.map(one, work))
-    ops, expect = [], []
+    ops, expect, masks = [], [], []
+    JUNK = 0xDEADBEEF << 32
     for name, ins, okc, nl in res:
         if nl is None or len(nl) != len(okc):
             continue
         ptypes, rt = M.NUMERIC[ins]
         bits = 32 if rt == "i32" else 64
         for c, line in zip(okc, nl):
-            ops.append("row %s %d %d" % (name, c[0], c[1] if len(c) > 1 else 0))
-            expect.append("ok %d" % (int(line) % (1 << bits)))
-    # #DE cases: the model must fault exactly where the hardware raises SIGFPE
+            # i32 operands: the upper half of the slot is arbitrary in the theorems; the model gets junk there, the hardware run had sign bits
+            x = c[0] | (JUNK if ptypes[0] == "i32" else 0)
+            y = (c[1] | (JUNK if ptypes[1] == "i32" else 0)) if len(c) > 1 else 0
+            ops.append("row %s %d %d 0" % (name, x, y))
+            expect.append("ok %d kept" % (int(line) % (1 << bits)))
+            masks.append(bits)
+    # #DE cases: the model must fault exactly where the hardware raises SIGFPE (observed by the trap jobs / witness replay)
     for name, ins, cases in work:
         ptypes, rt = M.NUMERIC[ins]
         for c in cases:
             cls = M.case_class(ins, ptypes, c)
             if cls in ("divisor-zero", "minint-by-minus1") and ins.split(".")[1] in ("div_s", "div_u", "rem_s", "rem_u"):
-                ops.append("row %s %d %d" % (name, c[0], c[1]))
+                ops.append("row %s %d %d 0" % (name, c[0], c[1]))
                 expect.append("fault")
+                masks.append(0)
+    # select rows: python is the oracle (trivial semantics), hardware covered by the control scenario
+    for name, r in sorted(tinfo["rows"].items()):
+        if r["kind"] == "select":
+            bits = 32 if r["rt"] == "i32" else 64
+            for _ in range(20):
+                x, y, c = rng.getrandbits(64), rng.getrandbits(64), rng.choice([0, 1, 1 << 31, 1 << 32, rng.getrandbits(64)])
+                ops.append("row %s %d %d %d" % (name, x, y, c))
+                expect.append("ok %d kept" % ((x if c % (1 << 32) else y) % (1 << bits)))
+                masks.append(bits)
     _, mo, _ = ctx.run_bin(model, input_text="\n".join(ops) + "\n")
-    diffs = ctx.diff_lines(ops, expect, mo.splitlines())
+    got = []
+    for line, b in zip(mo.splitlines(), masks):
+        f = line.split()
+        if len(f) == 3 and f[0] == "ok" and b:
+            got.append("ok %d %s" % (int(f[1]) % (1 << b), f[2]))
+        else:
+            got.append(line)
+    diffs = ctx.diff_lines(ops, expect, got)
     dist["model_vs_cpu_lines"] = len(ops)
     for i, op, a, b in diffs[:10]:
         ctx.proof["broken"].append({"theorem": "correspondence: Lean x86-64 model on the regenerated template vs the real CPU",
                                     "why": "%s: hardware gives %s, model gives %s" % (op, a, b)})
+
+
+def _norm_asm(line):
+    """canonical form of one instruction for the text <-> machine code comparison"""
+    line = line.split("#", 1)[0].strip().lower()
+    line = re.sub(r"\s+", " ", line)
+    line = re.sub(r"\s*,\s*", ",", line)
+    line = re.sub(r"0x([0-9a-f]+)", lambda m: str(int(m.group(1), 16)), line)
+    line = line.replace("movabs ", "mov ")
+    return line
+
+
+def objdump_crosscheck(ctx, B, tinfo, dist):
+    """ties the template TEXT the extractor parsed to the MACHINE CODE in the linked ELF: one module with one function per row is
+    built like every other module (wat2x64 -> gcc), disassembled with objdump, and every template must appear, instruction by
+    instruction, inside its function."""
+    import subprocess
+    rows = [(n, r) for n, r in sorted(tinfo["rows"].items()) if n not in ILLFORMED]
+    L = ["(module\n"]
+    for n, r in rows:
+        L.append("  (func $f_%s %s (result %s) %s %s)\n" % (n, " ".join("(param %s)" % t for t in r["ptypes"]), r["rt"],
+                                                           " ".join("local.get %d" % i for i in range(len(r["ptypes"]))), r["ins"]))
+    L.append('  (func $main (export "_start"))\n)\n')
+    b = B.build("objdump_rows", "".join(L))
+    if b["stage"] != "ok":
+        ctx.proof["broken"].append({"theorem": "objdump cross-check", "why": "row module does not build: %s" % b.get("msg")})
+        return
+    p = subprocess.run(["objdump", "-d", "-M", "intel", "--no-show-raw-insn", b["exe"]], capture_output=True, text=True, timeout=300)
+    funcs = {}
+    cur = None
+    for l in p.stdout.splitlines():
+        m = re.match(r"[0-9a-f]+ <(.+)>:", l)
+        if m:
+            cur = m.group(1)
+            funcs[cur] = []
+        elif cur and "\t" in l:
+            funcs[cur].append(_norm_asm(l.split("\t", 1)[1]))
+    bad = 0
+    for n, r in rows:
+        want = [_norm_asm(x) for x in r["asm"]]
+        want = [w for w in want if w]
+        got = funcs.get(".Wa.F.f_" + n, [])
+        ok = any(got[i:i + len(want)] == want for i in range(len(got) - len(want) + 1))
+        if not ok:
+            bad += 1
+            if bad <= 5:
+                ctx.proof["broken"].append({"theorem": "objdump cross-check %s" % n,
+                                            "why": "the linked ELF does not contain the template as extracted: want %s, function disassembles to %s" % (want, got[-12:])})
+    dist["objdump_rows_checked"] = len(rows)
+    dist["objdump_rows_mismatch"] = bad
